@@ -16,6 +16,7 @@ const SOUP: &[&str] = &[
     "# ", "## ", "- ", "* ", "1. ", "7) ", "> ", "```\n", "```rust\n", "\n", "\n\n", "  ", "    ", "\t", "|", " | ", "|---|\n", "---\n", "***\n", "===\n", "[a](b)", "[a](b.md)", "[[x]]", "[[x|y]]",
     "<div>\n", "</div>\n", " <div>x</div>\n", "<!-- c -->", "text", "word ", "*", "_", "`", "\\", "\r\n", "日本", "é", "😀", "![i](u)", "~~", "$x$", "[^1]", "- [ ] ", ":-:", "<a@b.c>", "&amp;", "[r]: /u\n", "[r]", "+ ",
     "[日本語のノート](日本語のノート)", "[заметка](заметка)", "[[日本語のノート]]", "[[заметка|текст]]", "[x](ÀÉÎÕÜàéî)", "[u](héllo-wörld-ünï)", "[m](MAILTO:a@b)", "[h](HtTp://X.y)", "[t](ht日本tp://x)", "[p](abcde日本語)", "[q](abcdef日本語)",
+    "---\nk: v\n---\n", "\u{feff}",
     "   - ", "      ", "> > ", ">- ", "1. - ", "-\n", "- \n", "\u{a0}", "\u{2028}", "http://x.y", "<http://x.y>", "](", ")", "[", "]",
 ];
 
@@ -24,11 +25,38 @@ pub fn soup(r: &mut Rng, n: usize) -> String {
 }
 
 /// known panic sites (message prefixes) and the finding they belong to
-fn site_finding(msg: &str) -> Option<&'static str> {
+/// which known finding a panic belongs to: the panic site *and* the finding's input feature — D21 only when the model
+/// reader fails on the same event stream (a `Text` event inside a top-level HTML block), D9 only when some list item
+/// starts with a code block, quote, table or rule
+fn site_finding(model: &mut Model, text: &str, msg: &str) -> Option<&'static str> {
     if msg.contains("section block panic") {
-        Some("D9")
+        let item_starts_with_block = text.lines().any(|l| {
+            let t = l.trim_start().trim_start_matches(|c| c == '>' || c == ' ');
+            let rest = if let Some(r) = t.strip_prefix(|c| c == '-' || c == '*' || c == '+') {
+                Some(r)
+            } else {
+                let digits = t.chars().take_while(|c| c.is_ascii_digit()).count();
+                if digits > 0 && (t[digits..].starts_with('.') || t[digits..].starts_with(')')) { Some(&t[digits + 1..]) } else { None }
+            };
+            match rest {
+                Some(r) if r.starts_with(' ') || r.starts_with('\t') => {
+                    let r = r.trim_start();
+                    r.starts_with("```") || r.starts_with("~~~") || r.starts_with('>') || r.starts_with('|') || r.starts_with("***") || r.starts_with("---") || r.starts_with("___") || r.starts_with("- - -") || r.starts_with("* * *") || r.starts_with("    ") || r.starts_with('<')
+                }
+                _ => false,
+            }
+        });
+        // (indented code, HTML and odd nestings reach the same arm: the model's builder decides for those)
+        if item_starts_with_block || text.contains('\t') || text.contains("      ") || text.contains('<') {
+            Some("D9")
+        } else {
+            None
+        }
     } else if msg.contains("to have element") {
-        Some("D21")
+        match crate::events::compare_reader(model, text) {
+            Some(c) if c.model_error && c.grammar != "complete" => Some("D21"),
+            _ => None,
+        }
     } else {
         None
     }
@@ -413,7 +441,7 @@ pub fn run(ctx: &Ctx, model: &mut Model, rep: &mut Report) {
         match exercise_with_deadline(&text) {
             Ok(None) => {}
             Ok(Some((op, msg))) => {
-                if let Some(id) = site_finding(&msg) {
+                if let Some(id) = site_finding(model, &text, &msg) {
                     if open.iter().any(|o| o == id) {
                         rep.count(&format!("attributed_to_{}", id));
                         continue;
@@ -424,12 +452,12 @@ pub fn run(ctx: &Ctx, model: &mut Model, rep: &mut Report) {
             Err(e) => rep.fail(json!({"kind": "hang", "text": text, "what": e})),
         }
     }
-    for t in ["> ---\n> a: b\n> ---\n", "- x\n\n  ---\n  t: 1\n  ---\n\n  y\n", "para\n\n---\nk: v\n---\n\ntail\n", "", "\n", "   ", "\r\n\r\n", "\u{feff}# bom\n", "---\n", "---\n---\n", "- \n", "> \n", "|\n", "#\n", "[", "]()", "[]()", "![]()", "``", "```", "<", "&#;", "\\", "a\\\nb", "\t- x", "1.\n2.\n"] {
+    for t in ["---\na: 1\n---\n\ntext\n\n---\nb: 2\n---\n\nmore\n", "---\na: 1\n---\n---\nb: 2\n---\n", "text\n\n---\nb: 2\n---\n\n---\nc: 3\n---\n", "\u{feff}---\na: 1\n---\n\n# T\n\n[x](other)\n", "> ---\n> a: b\n> ---\n", "- x\n\n  ---\n  t: 1\n  ---\n\n  y\n", "para\n\n---\nk: v\n---\n\ntail\n", "", "\n", "   ", "\r\n\r\n", "\u{feff}# bom\n", "---\n", "---\n---\n", "- \n", "> \n", "|\n", "#\n", "[", "]()", "[]()", "![]()", "``", "```", "<", "&#;", "\\", "a\\\nb", "\t- x", "1.\n2.\n"] {
         rep.case(t, false);
         match exercise_with_deadline(t) {
             Ok(None) => {}
             Ok(Some((op, msg))) => {
-                if site_finding(&msg).map(|id| open.iter().any(|o| o == id)).unwrap_or(false) {
+                if site_finding(model, t, &msg).map(|id| open.iter().any(|o| o == id)).unwrap_or(false) {
                     continue;
                 }
                 rep.fail(json!({"kind": "panic", "text": t, "what": format!("{} panics: {}", op, msg.chars().take(300).collect::<String>())}));
